@@ -770,12 +770,8 @@ Definition m_join (a b : val) : res :=
   | _, _, _, _ =>
       let aa := match a with VL la => la | _ => [a] end in
       let bb := match b with VL lb => lb | _ => [b] end in
-      let r := aa ++ bb in
-      let shapes := map npshape r in
-      (* np.concatenate of arrays whose trailing shapes differ, and the final unprotected
-         np.asarray(r, dtype=object) on member arrays of equal length but different shape, raise ValueError *)
-      if all_lists_same_len r && negb (forallb (fun sh => shape_eqb sh (hd None shapes)) shapes) then Err
-      else Ok (norm (VL r))
+      (* member arrays that cannot be stacked are joined member by member since the fix: commit *)
+      Ok (norm (VL (aa ++ bb)))
   end.
 
 (* a[i] with Python's negative indices *)
